@@ -51,12 +51,19 @@ def CloseKind.trigger : CloseKind → Trigger
 inductive RKind
   | oc   -- htlcOutgoingContestResolver
   | to   -- htlcTimeoutResolver
+  | ic   -- htlcIncomingContestResolver
+  | su   -- htlcSuccessResolver
   | cs   -- commitSweepResolver
   | br   -- breachResolver
   | an   -- anchorResolver (never persisted: `ResolverKey() == nil`)
   deriving DecidableEq, Repr, Inhabited
 
 def RKind.isHtlc : RKind → Bool
+  | .oc | .to | .ic | .su => true
+  | _ => false
+
+/-- outgoing htlc resolvers: the ones that owe an upstream resolution. -/
+def RKind.isOut : RKind → Bool
   | .oc | .to => true
   | _ => false
 
@@ -73,35 +80,34 @@ structure Rec where
 
 /-- progress measure of a stored resolver (contest < timeout < incubating < resolved). -/
 def Rec.progress (r : Rec) : Nat :=
-  (if r.kind == .oc then 0 else 1) + (if r.incub then 1 else 0) + (if r.resolved then 2 else 0)
+  (if r.kind == .oc || r.kind == .ic then 0 else 1) + (if r.incub then 1 else 0) +
+    (if r.resolved then 2 else 0)
 
-/-- One contract of the closed channel together with what the chain will do with it
-    (the oracle shared by all incarnations). -/
+/-- One contract of the closed channel. What happens to it on chain is NOT part of the
+    contract: it is observed through `Facts`. -/
 structure Contract where
   key : Nat
-  /-- resolver created by `prepContractResolutions` -/
+  /-- resolver created by `prepContractResolutions` at the closing height -/
   kind : RKind
-  /-- our commitment: outgoing htlc goes through the second-level timeout tx -/
+  /-- our commitment: the htlc goes through a second-level transaction -/
   twoStage : Bool
-  /-- the remote party sweeps the htlc with the preimage (else we time it out) -/
-  remoteClaims : Bool
   idx : Nat
   expiry : Nat
   deriving DecidableEq, Repr, Inhabited
 
-/-- upstream resolution of an htlc contract. -/
-def Contract.upstream (c : Contract) : Option (Nat × Bool) :=
-  if c.kind.isHtlc then some (c.idx, c.remoteClaims) else none
-
 def Contract.fresh (c : Contract) : Rec := { kind := c.kind, incub := false, resolved := false }
+
+/-- the upstream resolution an outgoing-htlc resolver delivers when it has seen how the htlc
+    output was spent: `settle = true` iff the spend revealed the preimage. -/
+def Contract.msg (c : Contract) (settle : Bool) : List (Nat × Bool) :=
+  if c.kind.isOut then [(c.idx, settle)] else []
 
 structure Spec where
   close : CloseKind
-  /-- some htlc is inside the broadcast window at the closing height: a chain-triggered
-      `checkCommitChainActions` computes the full action map. -/
-  near : Bool
-  /-- contract resolutions are logged and non-empty (false for cooperative closes). -/
-  hasRes : Bool
+  /-- height at which the closing transaction confirmed (`ClosingHeight` / `SpendingHeight`) -/
+  closeHeight : Nat
+  /-- `OutgoingBroadcastDelta` -/
+  delta : Nat
   contracts : List Contract
   /-- outgoing dust htlcs: failed upstream in `StateDefault` (HtlcFailDustAction). -/
   dustFails : List Nat
@@ -115,26 +121,50 @@ structure Spec where
 
 def Spec.find? (sp : Spec) (k : Nat) : Option Contract := sp.contracts.find? (·.key == k)
 
-/-- chain / sweeper / breach-arbitrator facts; only ever grow. -/
+/-- no contract and no htlc whatsoever. -/
+def Spec.isEmpty (sp : Spec) : Bool :=
+  sp.contracts.isEmpty && sp.dustFails.isEmpty && sp.danglingFails.isEmpty &&
+    sp.breachFails.isEmpty && sp.finalFails.isEmpty
+
+/-- `shouldGoOnChain` for some outgoing htlc at height `h`: `h ≥ RefundTimeout - delta`.
+    (An incoming htlc whose preimage is already known is not modelled as a reason to go on chain.) -/
+def nearAt (sp : Spec) (h : Nat) : Bool :=
+  sp.contracts.any (fun c => c.kind.isOut && h + sp.delta ≥ c.expiry)
+
+/-- who spent an output. For an outgoing htlc `remote` means "claimed with the preimage";
+    for an incoming one it means "timed out by the remote party". -/
+inductive SpendKind
+  | remote | ours
+  deriving DecidableEq, Repr, Inhabited
+
+/-- chain / sweeper / preimage-beacon / breach-arbitrator facts; only ever grow, and an output is
+    spent once. -/
 structure Facts where
   height : Nat := 0
   closeSeen : Bool := false
-  /-- htlc (or commit/anchor) outpoint spent -/
-  spent1 : List Nat := []
+  /-- htlc (or commit/anchor) outpoint spent, and by whom -/
+  spent1 : List (Nat × SpendKind) := []
   /-- output of our second-level tx spent -/
   spent2 : List Nat := []
+  /-- preimage known for the incoming htlc with this key -/
+  preimages : List Nat := []
   breachDone : Bool := false
   deriving DecidableEq, Repr, Inhabited
 
+def Facts.spendOf (f : Facts) (k : Nat) : Option SpendKind :=
+  (f.spent1.find? (·.1 == k)).map (·.2)
+
 inductive Fact
-  | height (h : Nat) | close | spend1 (k : Nat) | spend2 (k : Nat) | breachDone
+  | height (h : Nat) | close | spend1 (k : Nat) (by_ : SpendKind) | spend2 (k : Nat)
+  | preimage (k : Nat) | breachDone
   deriving DecidableEq, Repr, Inhabited
 
 def Facts.add (f : Facts) : Fact → Facts
   | .height h => { f with height := max f.height h }
   | .close => { f with closeSeen := true }
-  | .spend1 k => { f with spent1 := if f.spent1.contains k then f.spent1 else k :: f.spent1 }
+  | .spend1 k b => { f with spent1 := if (f.spendOf k).isSome then f.spent1 else f.spent1 ++ [(k, b)] }
   | .spend2 k => { f with spent2 := if f.spent2.contains k then f.spent2 else k :: f.spent2 }
+  | .preimage k => { f with preimages := if f.preimages.contains k then f.preimages else k :: f.preimages }
   | .breachDone => { f with breachDone := true }
 
 /-- the durable arbitrator log. -/
@@ -162,6 +192,8 @@ def putAll (cs : List (Nat × Rec)) : List (Nat × Rec) → List (Nat × Rec)
 structure Chan where
   pendingClose : Bool := false
   closeKind : CloseKind := .coop
+  /-- `CloseHeight` of the close summary -/
+  closingHeight : Nat := 0
   broadcasted : Bool := false
   fullyClosed : Bool := false
   deriving DecidableEq, Repr, Inhabited
@@ -196,6 +228,8 @@ structure Sys where
   trig : Trigger := .chain
   /-- `confCommitSet` argument of the running `advanceState` is non-nil -/
   csArg : Bool := false
+  /-- `triggerHeight` of the running `advanceState` -/
+  trigH : Nat := 0
   pc : Pc := .adv
   /-- `startingState == StateWaitingFullResolution` and `relaunchResolvers` still to run -/
   relaunch : Bool := false
@@ -222,11 +256,14 @@ inductive Action
 /-- `len(chainActions) != 0 || trigger != chainTrigger` in `StateDefault`, and whether the full
     per-htlc action map (dust fails, incoming dust finals, htlc resolvers) is computed.
     `full` = the early return of `checkCommitChainActions` is not taken. -/
-def fullActions (sp : Spec) (t : Trigger) : Bool := t != .chain || sp.near
+def fullActions (sp : Spec) (t : Trigger) (h : Nat) : Bool := t != .chain || nearAt sp h
 
-/-- resolvers built by `prepContractResolutions` under trigger `t`. -/
+/-- resolvers built by `prepContractResolutions` under trigger `t`. In `StateContractClosed` the
+    trigger height is always the closing height (`SpendingHeight` of the event, `ClosingHeight`
+    after a restart). -/
 def freshContracts (sp : Spec) (t : Trigger) : List Contract :=
-  if fullActions sp t then sp.contracts else sp.contracts.filter (fun c => !c.kind.isHtlc)
+  if fullActions sp t sp.closeHeight then sp.contracts
+  else sp.contracts.filter (fun c => !c.kind.isHtlc)
 
 def freshRecs (sp : Spec) (t : Trigger) : List (Nat × Rec) :=
   ((freshContracts sp t).filter (·.kind.persisted)).map (fun c => (c.key, c.fresh))
@@ -267,13 +304,13 @@ def leaveDefault (hasRes : Bool) (t : Trigger) (dust : List (Nat × Bool)) : Adv
 def defaultRes (sp : Spec) (s : Sys) : AdvRes :=
   if s.csArg then
     -- constructChainActions(confCommitSet, …): `len(chainActions) == 0 && trigger == chainTrigger`
-    if s.trig == .chain && !(fullActions sp s.trig || !sp.danglingFails.isEmpty) then .stay
-    else leaveDefault s.log.hasRes s.trig (dustIf sp (fullActions sp s.trig))
+    if s.trig == .chain && !(fullActions sp s.trig s.trigH || !sp.danglingFails.isEmpty) then .stay
+    else leaveDefault s.log.hasRes s.trig (dustIf sp (fullActions sp s.trig s.trigH))
   else
     -- checkLocalChainActions on the in-memory htlc sets (empty for a pending-close channel)
-    if s.trig == .chain && !(fullActions sp s.trig && !s.chan.pendingClose) then .stay
+    if s.trig == .chain && !(fullActions sp s.trig s.trigH && !s.chan.pendingClose) then .stay
     else leaveDefault s.log.hasRes s.trig
-           (dustIf sp (fullActions sp s.trig && !s.chan.pendingClose))
+           (dustIf sp (fullActions sp s.trig s.trigH && !s.chan.pendingClose))
 
 /-- leaving BroadcastCommit / CommitmentBroadcasted on a close trigger. -/
 def leaveOnClose (hasRes : Bool) (t : Trigger) (other : AdvRes) : AdvRes :=
@@ -288,11 +325,13 @@ def leaveOnClose (hasRes : Bool) (t : Trigger) (other : AdvRes) : AdvRes :=
 /-- `stateStep` in `StateContractClosed`. -/
 def closedRes (sp : Spec) (s : Sys) : AdvRes :=
   if !s.log.hasRes then .stay   -- FetchContractResolutions fails: StateError, nothing committed
-  else if sp.contracts.isEmpty && s.log.contracts.isEmpty then
-    -- contractResolutions.IsEmpty(): nothing was or will ever be inserted
+  else if sp.isEmpty && s.log.contracts.isEmpty then
+    -- contractResolutions.IsEmpty() && confCommitSet.IsEmpty(): no output of ours, no htlc at
+    -- all; nothing was or will ever be inserted
     .commit [] .fullyResolved
   else if sp.close == .breach then .insert (failMsgs sp.breachFails) []
-  else .insert (failMsgs sp.danglingFails) (if fullActions sp s.trig then sp.finalFails else [])
+  else .insert (failMsgs sp.danglingFails)
+         (if fullActions sp s.trig sp.closeHeight then sp.finalFails else [])
 
 def advRes (sp : Spec) (s : Sys) : AdvRes :=
   match s.mem with
@@ -328,19 +367,22 @@ def mainStep (sp : Spec) (s : Sys) : Option Sys :=
       | .coop =>
         -- handleCoopCloseEvent: MarkChannelClosed, then advanceState(coopCloseTrigger, nil)
         some { s with evSeen := true,
-                      chan := { s.chan with pendingClose := true, closeKind := .coop },
-                      trig := .coopClose, csArg := false, pc := .adv }
+                      chan := { s.chan with pendingClose := true, closeKind := CloseKind.coop, closingHeight := sp.closeHeight },
+                      trig := .coopClose, csArg := false, trigH := sp.closeHeight, pc := .adv }
       | _ =>
         -- LogContractResolutions
         some { s with evSeen := true, log := { s.log with hasRes := true }, pc := .evLogCS }
     else if s.mem == .waitingFull && s.log.contracts.isEmpty then
       -- resolutionSignal → advanceState(chainTrigger, nil)
-      some { s with trig := .chain, csArg := false, pc := .adv }
+      some { s with trig := .chain, csArg := false, trigH := s.facts.height, pc := .adv }
+    else if s.mem == .default && !s.chan.pendingClose && nearAt sp s.facts.height then
+      -- handleBlockbeat in StateDefault: advanceState(height, chainTrigger, nil)
+      some { s with trig := .chain, csArg := false, trigH := s.facts.height, pc := .adv }
     else none
   | .evLogCS => some { s with log := { s.log with hasCS := true }, pc := .evMark }
   | .evMark =>
-    some { s with chan := { s.chan with pendingClose := true, closeKind := sp.close },
-                  trig := sp.close.trigger, csArg := true, pc := .adv }
+    some { s with chan := { s.chan with pendingClose := true, closeKind := sp.close, closingHeight := sp.closeHeight },
+                  trig := sp.close.trigger, csArg := true, trigH := sp.closeHeight, pc := .adv }
   | .adv =>
     match advRes sp s with
     | .stay =>
@@ -386,31 +428,48 @@ def resRes (sp : Spec) (f : Facts) (r : RunRes) : ResRes :=
     | some c =>
       match r.rc.kind with
       | .oc =>
-        if f.spent1.contains r.key then
-          -- "the output has already been spent": claimCleanUp without looking at the witness
-          if c.remoteClaims then .put (c.upstream.toList) { kind := .to, incub := r.rc.incub, resolved := true } .needDelete
-          else .die
-        else if f.height + 1 ≥ c.expiry then
-          .put [] { kind := .to, incub := r.rc.incub, resolved := r.rc.resolved } .running   -- SwapContract
-        else .blocked
+        match f.spendOf r.key with
+        -- "the output has already been spent": claimCleanUp without looking at the witness
+        | some .remote => .put (c.msg true) { kind := .to, incub := r.rc.incub, resolved := true } .needDelete
+        | some .ours => .die
+        | none =>
+          if f.height + 1 ≥ c.expiry then
+            .put [] { kind := .to, incub := r.rc.incub, resolved := r.rc.resolved } .running   -- SwapContract
+          else .blocked
       | .to =>
         if r.rc.resolved then .blocked
-        else if !f.spent1.contains r.key then .blocked
-        else if c.remoteClaims then
-          .put (c.upstream.toList) { r.rc with resolved := true } .needDelete
-        else if !c.twoStage then
-          .put (c.upstream.toList) { r.rc with resolved := true } .needDelete
-        else if !r.rc.incub then
-          .put (c.upstream.toList) { r.rc with incub := true } .running       -- checkpointStageOne
-        else if f.spent2.contains r.key then
-          .put [] { r.rc with resolved := true } .needDelete                -- checkpointClaim
+        else match f.spendOf r.key with
+        | none => .blocked
+        | some .remote => .put (c.msg true) { r.rc with resolved := true } .needDelete
+        | some .ours =>
+          if !c.twoStage then .put (c.msg false) { r.rc with resolved := true } .needDelete
+          else if !r.rc.incub then
+            .put (c.msg false) { r.rc with incub := true } .running       -- checkpointStageOne
+          else if f.spent2.contains r.key then
+            .put [] { r.rc with resolved := true } .needDelete            -- checkpointClaim
+          else .blocked
+      | .ic =>
+        -- `Resolve` looks at the expiry before it looks for the preimage
+        if f.height ≥ c.expiry then .put [] { r.rc with resolved := true } .needDelete
+        else if f.preimages.contains r.key then
+          .put [] { kind := .su, incub := r.rc.incub, resolved := r.rc.resolved } .running  -- SwapContract
         else .blocked
+      | .su =>
+        if r.rc.resolved then .blocked
+        else match f.spendOf r.key with
+        | none => .blocked
+        | some .remote => .put [] { r.rc with resolved := true } .needDelete   -- checkpointForeignSpend
+        | some .ours =>
+          if !c.twoStage then .put [] { r.rc with resolved := true } .needDelete
+          else if !r.rc.incub then .put [] { r.rc with incub := true } .running
+          else if f.spent2.contains r.key then .put [] { r.rc with resolved := true } .needDelete
+          else .blocked
       | .cs =>
-        if f.spent1.contains r.key then .put [] { r.rc with resolved := true } .needDelete else .blocked
+        if (f.spendOf r.key).isSome then .put [] { r.rc with resolved := true } .needDelete else .blocked
       | .br =>
         if f.breachDone then .put [] { r.rc with resolved := true } .needDelete else .blocked
       | .an =>
-        if f.spent1.contains r.key then .put [] { r.rc with resolved := true } .needDelete else .blocked
+        if (f.spendOf r.key).isSome then .put [] { r.rc with resolved := true } .needDelete else .blocked
 
 /-- second possibility of the contest resolver's `select`: when the htlc is already spent by our
     own timeout sweep AND the expiry height is reached, Go picks either ready case. The epoch case
@@ -418,7 +477,7 @@ def resRes (sp : Spec) (f : Facts) (r : RunRes) : ResRes :=
 def resAlt (sp : Spec) (f : Facts) (r : RunRes) : ResRes :=
   match r.pc, r.rc.kind, sp.find? r.key with
   | .running, .oc, some c =>
-    if f.spent1.contains r.key && !c.remoteClaims && f.height + 1 ≥ c.expiry then
+    if f.spendOf r.key == some .ours && f.height + 1 ≥ c.expiry then
       .put [] { kind := .to, incub := r.rc.incub, resolved := r.rc.resolved } .running
     else .blocked
   | _, _, _ => .blocked
@@ -466,6 +525,7 @@ def restart (s : Sys) : Sys :=
   { s with mem := s.log.state,
            trig := restartTrigger s.chan s.log.state,
            csArg := s.log.hasCS,
+           trigH := if s.chan.pendingClose then s.chan.closingHeight else s.facts.height,
            pc := if s.chan.fullyClosed then .finished else .adv,
            relaunch := s.log.state == .waitingFull,
            evSeen := false, active := [], crashes := s.crashes + 1 }
@@ -479,7 +539,7 @@ def step (sp : Spec) (s : Sys) : Action → Option Sys
   | .forceClose =>
     -- user force close request: only acted upon in StateDefault between two events
     if s.pc == .idle && s.mem == .default && !s.chan.pendingClose then
-      some { s with trig := .user, csArg := false, pc := .adv }
+      some { s with trig := .user, csArg := false, trigH := s.facts.height, pc := .adv }
     else none
 
 def init : Sys := {}
@@ -489,12 +549,10 @@ def run (sp : Spec) (s : Sys) : List Action → Sys
   | [] => s
   | a :: rest => run sp ((step sp s a).getD s) rest
 
-/-! ### what the chain dictates -/
+/-! ### upstream resolutions that do not depend on the chain -/
 
-/-- every upstream resolution the uninterrupted run delivers. -/
-def expectedMsgs (sp : Spec) : List (Nat × Bool) :=
-  failMsgs sp.dustFails ++ failMsgs sp.danglingFails ++ failMsgs sp.breachFails ++
-    sp.contracts.filterMap (·.upstream)
+/-- fails issued by the arbitrator itself (dust, dangling, breach). -/
+def listFails (sp : Spec) : List Nat := sp.dustFails ++ sp.danglingFails ++ sp.breachFails
 
 def persistedKeys (sp : Spec) : List Nat :=
   (sp.contracts.filter (·.kind.persisted)).map (·.key)
